@@ -227,6 +227,20 @@ doc = [f1, 1, 's', None]
 {ASSERT}
 """
     out.append(mk_case("c01.value.less_than.floats", [("v", "float"), ("f1", "float")], body, pre=["v == v and f1 == f1"]))
+    # equal-but-differently-typed items (1 / True / 1.0, 0 / False / 0.0) under type-sensitive leaves
+    for cid, tsrc in [("dtype_int", "leaf('value', 'dtype', 'equal_to', int)"), ("dtype_bool", "leaf('value', 'dtype', 'equal_to', bool)"),
+                      ("dtype_in", "leaf('value', 'dtype', 'in_', [float, bool])"), ("is_instance_bool", "leaf('value', None, 'is_instance', bool)"),
+                      ("is_instance_int", "leaf('value', None, 'is_instance', int)"), ("key_dtype_int", "leaf('key', 'dtype', 'equal_to', int)"),
+                      ("key_is_instance_float", "leaf('key', None, 'is_instance', float)")]:
+        doc = "{1: u1, 2.0: 0, True + 1: 1, 0: 2, -0.0: 3, 3: 4, 3.0: 5}" if cid.startswith("key") else "[1, True, 1.0, 0, False, 0.0, u1, 2, 2.0]"
+        if cid.startswith("key"):
+            doc = "{1: u1, 2.0: 0, 0: 2, 3: 4, False: 5, 4.0: 6, True: 7}"   # (equal keys collapse in a mapping: 1/True, 0/False)
+        body = f"""
+T = {tsrc}
+doc = {doc}
+{ASSERT}
+"""
+        out.append(mk_case(f"c01.twins.{cid}", [("u1", "Union[bool, None, str]")], body, pre=[f"BU({L}, u1)"]))
     # aliases build the same object and filter alike
     for kind, pre in terms.CLASSES:
         for al, full in terms.ALIASES.items():
